@@ -887,7 +887,11 @@ func runPromql(prop string, args []string) int {
 	pr := &pqRunner{prop: prop, rep: rep, eng: newPQEngine(), keep: n <= 3000}
 	g := &pqGen{r: r, bias: prop, hist: rep.hist}
 	cwd, _ := os.Getwd()
-	cw := newCaseWriter(cwd, "Run."+prop, 60)
+	perFile := 60
+	if n > 3000 {
+		perFile = 24 // thorough tier: depth-4 expressions x 8 databases; keep every case file well inside the per-file time limit
+	}
+	cw := newCaseWriter(cwd, "Run."+prop, perFile)
 	cw.preamble = "From Coq Require Import Floats.\nFrom PintV Require Import Model.PromQL Model.Source Model.PromSem.\nOpen Scope list_scope.\n"
 
 	exprs := []string{}
@@ -961,6 +965,10 @@ func runPromql(prop string, args []string) int {
 		}
 		dbTerms := []string{}
 		anyTotalNonEmpty := false
+		texts := make([]string, len(nodes))
+		for i, nd := range nodes {
+			texts[i] = pqNodeText(expr, nd)
+		}
 		for di := 0; di < ndb; di++ {
 			total := prop == "C12" || di%2 == 1
 			db := g.db(total, 1+di%3)
@@ -972,7 +980,7 @@ func runPromql(prop string, args []string) int {
 			results := make([]pqResult, len(nodes))
 			rterms := make([]string, len(nodes))
 			for i, nd := range nodes {
-				results[i] = pqEval(pr.eng, db, nd.String())
+				results[i] = pqEval(pr.eng, db, texts[i])
 				rterms[i] = coqResult(results[i])
 				rep.hist("result:" + results[i].Kind)
 				// strata of the node-by-node validation of Model/PromSem.v: node kind x (empty | non-empty) engine result
@@ -1016,6 +1024,33 @@ func runPromql(prop string, args []string) int {
 	rep.write(filepath.Join(cwd, "report.json"))
 	fmt.Printf("%s: %d expressions, %d node evaluations, %d oracle failures (%d known)\n", prop, id, rep.Evaluations, len(rep.OracleFails), sumKnown(rep.Known))
 	return 0
+}
+
+// pqNodeText: the query text handed to the engine for one sub-expression.  Normally the printer's rendering of the node;
+// but Node.String() DROPS the whole matching clause of `x op ignoring() group_left(l) y` (an empty ignoring() list is not
+// printed, and the group modifier goes with it), so a node containing such an operation is evaluated from its own
+// slice of the original text instead.
+func pqNodeText(expr string, nd promParser.Node) string {
+	lossy := anyNode(nd, func(n promParser.Node) bool {
+		b, ok := n.(*promParser.BinaryExpr)
+		if !ok || b.VectorMatching == nil {
+			return false
+		}
+		vm := b.VectorMatching
+		return !vm.On && len(vm.MatchingLabels) == 0 && (vm.Card == promParser.CardManyToOne || vm.Card == promParser.CardOneToMany)
+	})
+	if lossy {
+		pos := nd.PositionRange()
+		if int(pos.Start) >= 0 && int(pos.End) <= len(expr) && pos.Start < pos.End {
+			txt := expr[pos.Start:pos.End]
+			if re, err := promParser.ParseExpr(txt); err == nil {
+				if e, ok := nd.(promParser.Expr); ok && re.Type() == e.Type() {
+					return txt
+				}
+			}
+		}
+	}
+	return nd.String()
 }
 
 // pqNodeKind names the local rule of Model/PromSem.v a node is validated against.
